@@ -296,7 +296,7 @@ def type_or_id_filter(draw, objs):
         value = draw(st.lists(vs, min_size=0, max_size=4))
     elif op == "contains":
         v = draw(vs)
-        a = draw(st.integers(0, len(v) - 1))
+        a = draw(st.integers(0, max(0, len(v) - 1)))
         value = v[a:a + draw(st.integers(1, 12))]
         if which == "type" and "_" in value:
             value = v
@@ -345,7 +345,7 @@ def property_filter(draw, objs, dt_ok=True, no_ts=False):
         return {"prop": path, "op": op, "value": draw(st.lists(sv, max_size=3))}
     if op == "contains" and kind != "list":
         v = draw(sv)
-        a = draw(st.integers(0, len(v) - 1))
+        a = draw(st.integers(0, max(0, len(v) - 1)))
         return {"prop": path, "op": op, "value": v[a:a + draw(st.integers(1, 8))]}
     return {"prop": path, "op": op, "value": draw(sv)}
 
@@ -386,7 +386,7 @@ def aimed_filter(draw, objs, target, type_id, dt_ok=True, no_ts=False):
         elif op == "!=":
             value = draw(st.sampled_from(others))
         elif op == "contains":
-            a = draw(st.integers(0, len(v) - 1))
+            a = draw(st.integers(0, max(0, len(v) - 1)))
             value = v[a:a + draw(st.integers(1, 12))]
         else:
             value = v
@@ -413,7 +413,7 @@ def aimed_filter(draw, objs, target, type_id, dt_ok=True, no_ts=False):
         value = draw(st.lists(st.sampled_from(others + [ABSENT_STR]), max_size=2))
         value.insert(draw(st.integers(0, len(value))), v)
     elif op == "contains" and kind != "list":
-        a = draw(st.integers(0, len(v) - 1))
+        a = draw(st.integers(0, max(0, len(v) - 1)))
         value = v[a:a + draw(st.integers(1, 8))]
     elif op == "<":
         value = v + "z"
